@@ -277,7 +277,7 @@ def gen_C15(rng, tier, cfg):
     ops, stats = [], {"pairs": 0}
     reps = 40 if tier == "quick" else 2000
     ops.append("cfg backend %s" % backends_for(cfg, tier)[0])
-    for _ in range(reps):
+    for rep in range(reps):
         key = bytearray(struct_bytes(rng, 32))
         nl = rng.choice([8, 12])
         nonce = bytearray(struct_bytes(rng, nl))
@@ -302,7 +302,7 @@ def gen_C15(rng, tier, cfg):
             ops.append("guts eq64 0 1")
         ops.append("guts refill 0 %d" % rng.below(11))
         ops.append("guts refill 0 0")
-        if rng.below(10) == 0:
+        if rep % 10 == 3:
             ops.append("guts set 0 %d 5" % rng.choice([2, 3, 7]))   # out-of-range parameter: panic
             ops.append("guts get 0 %d" % rng.choice([2, 3, 7]))
         stats["pairs"] += 1
